@@ -104,12 +104,9 @@ Definition pop_or_end (stack : list state) : state * list state :=
 Definition st_finish_object (s : state) (stack : list state) : sres * list state :=
   match s with
   | Object l i =>
-      match mul_w l 2 with
-      | None => (SPanic P_mul_overflow, stack)
-      | Some l2 =>
-          if negb (i =? l2) then (SErr WR_ObjectLengthError, stack)
-          else let '(p, t) := pop_or_end stack in (SOk p, t)
-      end
+      (* `!num_inserted.is_multiple_of(2) || num_inserted / 2 != length` (no multiplication since the repair of F8) *)
+      if negb (i mod 2 =? 0) || negb (i / 2 =? l) then (SErr WR_ObjectLengthError, stack)
+      else let '(p, t) := pop_or_end stack in (SOk p, t)
   | _ => (SErr WR_NotAnObject, stack)
   end.
 (** State::finish_array *)
